@@ -586,14 +586,16 @@ int main(int argc, char **argv) {
                 if (target.IsArray()) target += Memory::Move(x);
                 else if (target.IsObject()) { std::string key = key_text(1 + (long)rng.below(4)); target[key.c_str()] = Memory::Move(x); }
             }
-            V p1, arr, obj;                              // (a pointer to a pointer is not specified anywhere: not exercised)
+            V p1, p2, arr, obj;
             p1.SetPointerToValue(&target);
+            p2.SetPointerToValue(&p1);                   // a pointer to a pointer reads as the target too (every accessor forwards)
             arr.AddPointerToValue(&target);
             std::string key = key_text(1);
             obj[key.c_str()].SetPointerToValue(&target);
-            std::string jt, v1, v3, v4;
+            std::string jt, v1, v2, v3, v4;
             jdoc(target, jt);
             jdoc(p1, v1);
+            jdoc(p2, v2);
             { const V *e = arr.GetValue(SizeT{0}); if (e) jdoc(*e, v3); else v3 = "{\"t\":\"U\"}"; }
             { const V *e = obj.GetValue(key.c_str()); if (e) jdoc(*e, v4); else v4 = "{\"t\":\"U\"}"; }
             long gi = (long)p1.GetInt64(), gd = (long)(p1.GetDouble() * 2.0), gb, nt;
@@ -602,8 +604,8 @@ int main(int argc, char **argv) {
             QNumber64 q;
             nt = (long)p1.SetNumber(q);
             int eq = (p1 == target) && (target == p1) && !(p1 < target) && !(p1 > target);
-            fprintf(out, "{\"op\":\"ptr\",\"t\":%s,\"views\":[%s,%s,%s],\"gi\":%ld,\"gd\":%ld,\"gb\":%ld,\"nt\":%ld,\"size\":%ld,\"tsize\":%ld,\"eq\":%d}\n", jt.c_str(), v1.c_str(),
-                    v3.c_str(), v4.c_str(), gi, gd, gb, nt, (long)p1.Size(), (long)target.Size(), eq);
+            fprintf(out, "{\"op\":\"ptr\",\"t\":%s,\"views\":[%s,%s,%s,%s],\"gi\":%ld,\"gd\":%ld,\"gb\":%ld,\"nt\":%ld,\"size\":%ld,\"tsize\":%ld,\"eq\":%d}\n", jt.c_str(), v1.c_str(),
+                    v2.c_str(), v3.c_str(), v4.c_str(), gi, gd, gb, nt, (long)p1.Size(), (long)target.Size(), eq && (p2 == target) && (p2.Size() == target.Size()));
         }
         fclose(out);
         vf::g_trace = nullptr;
